@@ -258,6 +258,7 @@ def alloc : Val → Heap → HVal × Heap
   | .zstk f, H => (.atom (.zstk f), H)
   | .zcnd f, H => (.atom (.zcnd f), H)
   | .anys xs, H => (.atom (.anys xs), H)
+  | .opv o, H => (.atom (.opv o), H)
 def allocL : List Val → Heap → List HVal × Heap
   | [], H => ([], H)
   | x :: xs, H => let r1 := alloc x H; let r2 := allocL xs r1.2; (r1.1 :: r2.1, r2.2)
